@@ -550,6 +550,10 @@ class EnumType(DataType):
 
     def from_string(self, text):
         try:
+            return self._enum(text)  # the name as given: a member name may start or end with blanks
+        except KeyError:
+            pass
+        try:
             return self._enum(text.strip())
         except KeyError:
             return super().from_string(text)
